@@ -636,15 +636,87 @@ def c18_case(tid, k, j, how):
     run.drain()
     for _ in range(j):
         run.apply({"a": "AppGet", "c": "A", "kind": "message"})
-    if how == "pending":
-        # one more get than there are messages: it is outstanding when the wormhole closes
-        for _ in range(k - j + 1):
+    if how.startswith("pending"):
+        # more gets than there are messages: one ("pending") or several ("pending3", pipelined reads) are outstanding when
+        # the wormhole closes, and so are gets of every other kind that has no value yet
+        for _ in range(k - j + (3 if how == "pending3" else 1)):
             run.apply({"a": "AppGet", "c": "A", "kind": "message"})
     run.apply({"a": "AppClose", "c": "A"})
     drained = run.drain()
     for kind in ("message",) * (k + 1) + ("code", "key", "verifier", "versions", "welcome"):
         run.apply({"a": "AppGet", "c": "A", "kind": kind})
     run.drain()
+    return run, False, drained
+
+
+def c18_outstanding_case(tid, n, kinds, peer):
+    """get_*() Deferreds that are outstanding when the wormhole closes - several of a kind, pipelined - must all fail then.
+    peer=False: the other side never shows up (close reports LonelyError); peer=True: keys agreed, no message yet."""
+    run = RealRun(tid, "c18-outstanding", modes={"A": "deferred-lazy", "B": "delegated"})
+    for c in ("A", "B"):
+        run.apply({"a": "ConnOpen", "c": c})
+    run.apply({"a": "AppSetCode", "c": "A", "code": "4-alpha-beta"})
+    if peer:
+        run.apply({"a": "AppSetCode", "c": "B", "code": "4-alpha-beta"})
+    run.drain()
+    for kind in kinds:
+        for _ in range(n):
+            run.apply({"a": "AppGet", "c": "A", "kind": kind})
+    run.apply({"a": "AppClose", "c": "A"})
+    drained = run.drain()
+    for kind in kinds:
+        run.apply({"a": "AppGet", "c": "A", "kind": kind})
+    run.drain()
+    return run, False, drained
+
+
+def c02_reconnect_replay_case(tid, victim, keep, order):
+    """After an honest exchange the server drops the victim's connection; when the client has reconnected and re-opened
+    its mailbox, the server replays the stored messages of the peer selectively (`keep`: the phases it delivers again) and
+    in the order it likes (`order`: "stored" / "pake-last" / "reversed").  Nothing may reach the application twice."""
+    run = RealRun(tid, "c02-reconnect-replay")
+    w = run.world
+    for c in ("A", "B"):
+        run.apply({"a": "ConnOpen", "c": c})
+        run.apply({"a": "AppSetCode", "c": c, "code": "4-alpha-beta"})
+    for c in ("A", "B"):
+        for k in range(2):
+            run.apply({"a": "AppSend", "c": c, "data": ("m:%s:%d" % (c, k)).encode().hex()})
+    run.drain()
+    cl = w.clients[victim]
+    conn = w.live_conn(cl)
+    if conn is None:
+        return run, False, False
+    run.apply({"a": "Drop", "k": conn.id})
+    run.apply({"a": "Retry", "c": victim})
+    run.apply({"a": "ConnOpen", "c": victim})
+    for _ in range(60):
+        conn = w.live_conn(cl)
+        if conn is None:
+            break
+        if conn.c2s:
+            run.apply({"a": "Serve", "k": conn.id})
+        elif conn.s2c and conn.s2c[0]["type"] != "message":
+            run.apply({"a": "Deliver", "k": conn.id})
+        else:
+            break
+    conn = w.live_conn(cl)
+    if conn is not None:
+        # the selective replay: frames of the peer whose phase is not in `keep` are withheld
+        for i in reversed(range(len(conn.s2c))):
+            fr = conn.s2c[i]
+            if fr["type"] == "message" and fr.get("side") != cl.side and fr.get("phase") not in keep:
+                run.apply({"a": "WithholdS2C", "k": conn.id, "i": i})
+        theirs = [i for i, fr in enumerate(conn.s2c) if fr["type"] == "message" and fr.get("side") != cl.side]
+        if order != "stored" and len(theirs) >= 2:
+            # bubble the frames of the peer into the wanted order (adjacent swaps, as the world's SwapS2C does)
+            want = list(reversed(theirs)) if order == "reversed" else theirs[1:] + theirs[:1]
+            frames = [conn.s2c[i] for i in want]
+            for pos, fr in zip(theirs, frames):
+                conn.s2c[pos] = fr
+            run.tracker.order_preserving = False
+            run.tracker.tampered = True
+    drained = run.drain()
     return run, False, drained
 
 
@@ -770,7 +842,7 @@ def replay_spec_behaviour(tid, states, origin, prop):
     return run, drift
 
 
-HOSTILE = ("ConnFail", "Inject", "TamperS2C", "SrvSend", "AppClose", "ArmClose")
+HOSTILE = ("ConnFail", "Inject", "TamperS2C", "SrvSend", "AppClose", "ArmClose", "WithholdS2C")
 
 
 def env_goal(run, drained):
@@ -1214,6 +1286,20 @@ def run_pipeline(prop, tier, v, quick):
                         runs[tid] = run_
                         records.append(run_.finish(drained, goal=False))
             cov["c02_family_cases"] = n
+            nrr = 0
+            for victim in ("A", "B"):
+                for keep in (("version",), ("version", "0", "1"), ("0", "1"), ("1",), ("pake", "version", "0", "1"), ("pake",)):
+                    for order in ("stored", "pake-last", "reversed"):
+                        tid += 1
+                        nrr += 1
+                        try:
+                            run_, goal, drained = c02_reconnect_replay_case(tid, victim, keep, order)
+                        except Exception as e:
+                            cov.setdefault("family_errors", []).append(repr(e)[:120])
+                            continue
+                        runs[tid] = run_
+                        records.append(run_.finish(drained, goal=False))
+            cov["c02_reconnect_replay_cases"] = nrr
             npre = nok = 0
             for n_ in (0, 1, 2):
                 for relabel in ([0], [0, 1, 2, 3], [1], [2]):
@@ -1306,7 +1392,20 @@ def run_pipeline(prop, tier, v, quick):
             cov["c18_raise_cases"] = n
         if prop == "C18":
             n = 0
-            for how in ("happy", "wrong", "pending"):
+            for n_ in (1, 2, 3):
+                for peer in (False, True):
+                    for kinds in (("message",), ("verifier", "versions", "key") if not peer else ("message", "message"),
+                                  ("message", "verifier", "versions", "key", "welcome", "code")):
+                        tid += 1
+                        n += 1
+                        try:
+                            run_, goal, drained = c18_outstanding_case(tid, n_, kinds, peer)
+                        except Exception as e:
+                            cov.setdefault("family_errors", []).append(repr(e)[:120])
+                            continue
+                        runs[tid] = run_
+                        records.append(run_.finish(drained, goal=False))
+            for how in ("happy", "wrong", "pending", "pending3"):
                 for k_ in range(0, 4):
                     for j_ in range(0, k_ + 1):
                         tid += 1
